@@ -265,6 +265,15 @@ impl Header {
         self.to_raw().map(|raw| CRC32C.checksum(&raw))
     }
 
+    /// Used by tools that write records at a new position (recovery with skipped records)
+    pub(crate) fn with_blob_offset(mut self, blob_offset: u64) -> bincode::Result<Self> {
+        if self.blob_offset != blob_offset {
+            self.blob_offset = blob_offset;
+            self.update_checksum()?;
+        }
+        Ok(self)
+    }
+
     /// Used for migration
     pub(crate) fn with_reversed_key_bytes(mut self) -> bincode::Result<Self> {
         self.key.reverse();
